@@ -19,7 +19,7 @@ Import ListNotations.
 
 (* EOther: any other Python exception; never produced by the model, so that an
    implementation raising one always disagrees with it *)
-Inductive err := EZeroDiv | ELattice | EAssert | ELoop | EStop | EOther.
+Inductive err := EZeroDiv | ELattice | EAssert | ELoop | EStop | EMacro | EOther.
 Inductive res (A : Type) := Ok (a : A) | Err (e : err).
 Arguments Ok {A}. Arguments Err {A}.
 
@@ -312,3 +312,121 @@ Section LatVec.
   Definition latticeVector (base : list (vec (T:=T))) (index : list Z) : vec (T:=T) :=
     vsum_list (lattice_terms base index).
 End LatVec.
+
+(* ---------------------------------------------------------------------- *)
+(* from the surface cards to the argument of hexLatticeBaseVectors:        *)
+(*   MacroBodies.rhp, ParseMCNPSurface.to_surface_mcnp for a P surface     *)
+(*   (MIP forcad.p / _plane / _shift), CellConversion.extract_surfaces     *)
+(* ---------------------------------------------------------------------- *)
+Section Rhp.
+  Context {T : Type} (S : Scalar T).
+  Local Notation vec := (vec (T:=T)).
+
+  Definition abcd : Type := T * T * T * T.
+
+  (* VectUtils.planeParamsFromNormalAndPoint: [n0, n1, n2, scal(normal, point)] *)
+  Definition planeParamsFromNormalAndPoint (normal point : vec) : abcd :=
+    (vx normal, vy normal, vz normal, scal S normal point).
+
+  (* vsum of three vectors: accumulators start at 0. *)
+  Definition vsum3 (a b c : vec) : vec :=
+    (sadd S (sadd S (sadd S (s0 S) (vx a)) (vx b)) (vx c),
+     sadd S (sadd S (sadd S (s0 S) (vy a)) (vy b)) (vy c),
+     sadd S (sadd S (sadd S (s0 S) (vz a)) (vz b)) (vz c)).
+
+  (* VectUtils.rotate (Rodrigues) *)
+  Definition rotate (v axis : vec) (angle : T) : vec :=
+    let cangle := scos S angle in
+    let sangle := ssin S angle in
+    vsum3 (rescale S cangle v) (rescale S sangle (vect S axis v))
+          (rescale S (smul S (ssub S (s1 S) cangle) (scal S axis v)) axis).
+
+  (* MIP forcad.p: normalise (A, B, C, D), point = shift of the origin along the
+     unit normal by D; the frame (point, normal) is SurfaceMCNP.param_surface *)
+  Definition forcad_p (q : abcd) : res (plane (T:=T)) :=
+    let '(a, b, c, d) := q in
+    let nrm := ssqrt S (sadd S (sadd S (smul S a a) (smul S b b)) (smul S c c)) in
+    if seqb S nrm (s0 S) then Err EZeroDiv else
+    let a' := sdiv S a nrm in let b' := sdiv S b nrm in
+    let c' := sdiv S c nrm in let d' := sdiv S d nrm in
+    Ok ((sadd S (s0 S) (smul S a' d'), sadd S (s0 S) (smul S b' d'), sadd S (s0 S) (smul S c' d')),
+        (a', b', c')).
+
+  (* MIP forcad.px / py / pz: _plane(d, 0, 0, 1, 0, 0) etc. *)
+  Definition forcad_axis (axis : nat) (d : T) : plane (T:=T) :=
+    match axis with
+    | O => ((d, s0 S, s0 S), (s1 S, s0 S, s0 S))
+    | Datatypes.S O => ((s0 S, d, s0 S), (s0 S, s1 S, s0 S))
+    | _ => ((s0 S, s0 S, d), (s0 S, s0 S, s1 S))
+    end.
+
+  (* a plane card: kind 0 = P with (A, B, C, D); 1, 2, 3 = PX, PY, PZ with D *)
+  Definition card_plane (kind : nat) (q : abcd) : res (plane (T:=T)) :=
+    match kind with
+    | O => forcad_p q
+    | Datatypes.S k => let '(a, _, _, _) := q in Ok (forcad_axis k a)
+    end.
+
+  Definition vec_of3 (l : list T) : vec :=
+    match l with [x; y; z] => (x, y, z) | _ => vzero S end.
+
+  (* MacroBodies.rhp: eight (P, parameters, side) parts; side +1 = the outside
+     of the body is on the positive side *)
+  Definition rhp (params : list T) : res (list (abcd * Z)) :=
+    let n := List.length params in
+    if negb (Nat.eqb n 9 || Nat.eqb n 15) then Err EMacro else
+    let base_bottom := vec_of3 (firstn 3 params) in
+    let height := vec_of3 (firstn 3 (skipn 3 params)) in
+    let vec_a := vec_of3 (firstn 3 (skipn 6 params)) in
+    match (if Nat.eqb n 15
+           then Ok (vec_of3 (firstn 3 (skipn 9 params)), vec_of3 (skipn 12 params))
+           else match renorm S height with
+                | Err e => Err e
+                | Ok hn => Ok (rotate vec_a hn (sdiv S (spi S) (sofZ S 3)),
+                               rotate vec_a hn (sdiv S (smul S (sofZ S 2) (spi S)) (sofZ S 3)))
+                end) with
+    | Err e => Err e
+    | Ok (vec_b, vec_c) =>
+        let base_top := vsum2 S base_bottom height in
+        let pp := planeParamsFromNormalAndPoint in
+        Ok [ (pp vec_a (vsum2 S base_bottom vec_a), 1%Z);
+             (pp vec_a (vdiff S base_bottom vec_a), (-1)%Z);
+             (pp vec_b (vsum2 S base_bottom vec_b), 1%Z);
+             (pp vec_b (vdiff S base_bottom vec_b), (-1)%Z);
+             (pp vec_c (vsum2 S base_bottom vec_c), 1%Z);
+             (pp vec_c (vdiff S base_bottom vec_c), (-1)%Z);
+             (pp height base_top, 1%Z);
+             (pp height base_bottom, (-1)%Z) ]
+    end.
+
+  (* to_surfaces_macro for RHP/HEX without a TRn: [(SurfaceMCNP, side)], of
+     which extract_surfaces reads param_surface *)
+  Fixpoint parts_to_surfs (parts : list (abcd * Z)) : res (list (surf (T:=T))) :=
+    match parts with
+    | [] => Ok []
+    | (q, side) :: r =>
+        match forcad_p q with
+        | Err e => Err e
+        | Ok pl => match parts_to_surfs r with
+                   | Err e => Err e
+                   | Ok l => Ok ((pl, side) :: l)
+                   end
+        end
+    end.
+
+  Definition rhp_surfaces (params : list T) : res (list (surf (T:=T))) :=
+    bind (rhp params) parts_to_surfs.
+
+  (* CellConversion.extract_surfaces: the surfaces of the cell in the order of
+     its expression, the side of each part negated under a negative literal *)
+  Definition extract_surfaces (dic : Z -> list (surf (T:=T))) (ids : list Z) : list (surf (T:=T)) :=
+    flat_map (fun id => map (fun ps => (fst ps, if Z.ltb 0 id then snd ps else Z.opp (snd ps)))
+                            (dic (Z.abs id))) ids.
+
+  (* a LAT=2 cell "-b" bounded by the RHP/HEX macrobody b *)
+  Definition rhp_cell_surfaces (params : list T) : res (list (surf (T:=T))) :=
+    bind (rhp_surfaces params) (fun parts => Ok (extract_surfaces (fun _ => parts) [(-1)%Z])).
+
+  Definition hexLatticeBaseVectors_rhp (params : list T) : res (list vec) :=
+    bind (rhp_cell_surfaces params) (hexLatticeBaseVectors S).
+End Rhp.
